@@ -4,6 +4,7 @@ import os
 import random
 import re
 import tempfile
+from concurrent.futures import ThreadPoolExecutor
 
 import abstract
 import runlib
@@ -22,42 +23,107 @@ PATTERN_SETS = [
 IDENT = re.compile(r'\d{8,}')
 
 
-def schedules(chk, tier, rng):
-    """TLC enumerates the schedules (Threads.tla hist at terminal states)."""
-    res = tlc.run('Threads', 'Threads_sched', workers=1, timeout=900)
-    chk.add_tlc('Threads_sched (schedule export)', res)
+def parse_scheds(out):
+    """the PrintT(<<"SCHED", hist>>) values of a TLC run (hist is a sequence
+    of tuples of numbers, strings and booleans: read as JSON)"""
+    dec = json.JSONDecoder()
     seen = {}
-    for v in tlc.printed_tuples(res.out, 'SCHED'):
-        h = v[1]
+    for chunk in re.split(r'<<\s*"SCHED"\s*,', out)[1:]:
+        txt = chunk.replace('<<', '[').replace('>>', ']').replace('TRUE', 'true').replace('FALSE', 'false')
+        h, _ = dec.raw_decode(txt.lstrip())
         if any(x[0] in ('start', 'end') for x in h):
             seen[json.dumps(h)] = h
-    allh = [seen[k] for k in sorted(seen)]
-    chk.extra['schedules_enumerated_by_tlc'] = len(allh)
+    return [seen[k] for k in sorted(seen)]
+
+
+def born(h):
+    """thread -> number of the test that started it (0: before the first)"""
+    t, res = 0, {}
+    for x in h:
+        if x[0] == 'test':
+            t = x[1]
+        elif x[0] == 'start':
+            res[x[1]] = t
+    return res
+
+
+def cross(h, kinds):
+    """does an action of one of these kinds hit a thread that an *earlier*
+    test (or nobody: it existed before the first test) started"""
+    t, b = 0, born(h)
+    for x in h:
+        if x[0] == 'test':
+            t = x[1]
+        elif x[0] in kinds and b.get(x[1]) != t:
+            return True
+    return False
+
+
+def schedules(chk, tier, rng, runs):
+    """TLC enumerates the schedules (Threads.tla hist at terminal states):
+    Threads_sched_base - 3 tests x 3 threading threads, starts and ends;
+    Threads_sched - 2 tests x 2 threads of either API, one of them possibly
+    started before the first test, adopt and rename steps; thorough tier:
+    random walks through the full-size model (Threads_sched_sim)."""
+    res = runs['Threads_sched_base']
+    chk.add_tlc('Threads_sched_base (schedule export)', res)
+    allh = parse_scheds(res.out)
+    resx = runs['Threads_sched']
+    chk.add_tlc('Threads_sched (schedule export: threads before the first test, adopt, rename)', resx)
+    allx = parse_scheds(resx.out)
+    if 'Threads_sched_sim' in runs:
+        chk.add_tlc('Threads_sched_sim (random walks)', runs['Threads_sched_sim'])
+        have = set(json.dumps(h) for h in allx)
+        allx += [h for h in parse_scheds(runs['Threads_sched_sim'].out) if json.dumps(h) not in have]
+    chk.extra['schedules_enumerated_by_tlc'] = len(allh) + len(allx)
+    chk.extra['schedules_with_pre_existing_threads_adopt_rename'] = len(allx)
+    if not allh or not allx:
+        chk.machinery('TLC exported no schedules')
     # the interesting ones first: a thread ends in a later test than it started
-    def cross(h):
-        t = 0
-        born = {}
-        for x in h:
-            if x[0] == 'test':
-                t = x[1]
-            elif x[0] == 'start':
-                born[x[1]] = t
-            elif x[0] == 'end' and born.get(x[1]) != t:
-                return True
-        return False
-    crossing = [h for h in allh if cross(h)]
-    rest = [h for h in allh if not cross(h)]
+    crossing = [h for h in allh if cross(h, ('end',))]
+    rest = [h for h in allh if not cross(h, ('end',))]
     n = 110 if tier == 'quick' else 1200
     pick = rng.sample(crossing, min(len(crossing), n * 2 // 3))
     pick += rng.sample(rest, min(len(rest), n - len(pick)))
-    return pick
+    # ... a thread that is older than the test becomes known to threading / is renamed
+    nx = 60 if tier == 'quick' else 900
+    xadopt = [h for h in allx if cross(h, ('adopt',))]
+    xrename = [h for h in allx if not cross(h, ('adopt',)) and cross(h, ('rename',))]
+    xrest = [h for h in allx if not cross(h, ('adopt', 'rename'))]
+    pickx = rng.sample(xadopt, min(len(xadopt), nx // 3))
+    pickx += rng.sample(xrename, min(len(xrename), nx // 3))
+    pickx += rng.sample(xrest, min(len(xrest), nx - len(pickx)))
+    return pick, pickx
 
 
-def make_case(cid, h, rng):
-    dummy_ignored = rng.random() < 0.25
-    base_pats, ign_names, ok_names = rng.choice(PATTERN_SETS)
+def counterexample_hist(out):
+    """hist in the last state of a TLC counterexample"""
+    i = out.rfind('/\\ hist = ')
+    if i < 0:
+        return None
+    txt = out[i + len('/\\ hist = '):]
+    txt = txt.replace('<<', '[').replace('>>', ']').replace('TRUE', 'true').replace('FALSE', 'false')
+    return json.JSONDecoder().raw_decode(txt.lstrip())[0]
+
+
+# exact replay of a TLC counterexample: the model's name numbers as names
+EXACT_NAMES = {1: 'worker', 2: 'xign', 3: 'ign-1'}
+
+
+def make_case(cid, h, rng, mode='base'):
+    """world and options for one schedule.  mode 'base': the schedule only
+    has threading threads and Python varies the API; 'x': the API is the
+    schedule's (adopt / rename depend on it), names are drawn from the class
+    the schedule names (reported / ignored), so equal names happen; 'exact':
+    a TLC counterexample, replayed as it is."""
+    exact = mode == 'exact'
+    cfg = [x for x in h if x[0] == 'cfg']
+    dummy_ignored = bool(cfg[0][1]) if (exact and cfg) else rng.random() < 0.25
+    base_pats, ign_names, ok_names = PATTERN_SETS[0] if exact else rng.choice(PATTERN_SETS)
     pats = list(base_pats) + (['Dummy-'] if dummy_ignored else [])
+    adopted = set(x[1] for x in h if x[0] == 'adopt')
     tests = {}
+    pre = []
     attrs = {}
     cur = None
     for x in h:
@@ -66,21 +132,37 @@ def make_case(cid, h, rng):
             tests[cur] = {'body': []}
         elif x[0] == 'start':
             th, g = 'th%d' % x[1], x[2]
-            api = rng.choice(['threading', 'threading', '_thread', '_thread_ct'])
-            if api != 'threading' and g != dummy_ignored:
+            if mode == 'base':
+                api = rng.choice(['threading', 'threading', '_thread', '_thread_ct'])
+                if api != 'threading' and g != dummy_ignored:
+                    api = 'threading'
+            elif x[3] == 'threading':
                 api = 'threading'
+            else:
+                # a thread the schedule adopts later starts unknown to threading
+                api = '_thread' if (exact or x[1] in adopted or rng.random() < 0.6) else '_thread_ct'
             a = {'a': 'tstart', 'name': th, 'api': api}
             if api == 'threading':
-                nm = rng.choice(ign_names if g else ok_names)
+                nm = EXACT_NAMES[x[4]] if exact else rng.choice(ign_names if g else ok_names)
                 if nm is not None:
                     a['tname'] = nm
             attrs[th] = a
-            tests[cur]['body'].append(a)
+            # before the first test: started while the test module is imported
+            (tests[cur]['body'] if cur else pre).append(a)
         elif x[0] == 'end':
             tests[cur]['body'].append({'a': 'trelease', 'name': 'th%d' % x[1]})
+        elif x[0] == 'adopt':
+            tests[cur]['body'].append({'a': 'tadopt', 'name': 'th%d' % x[1]})
+        elif x[0] == 'rename':
+            th, g = 'th%d' % x[1], x[2]
+            nm = EXACT_NAMES[x[3]] if exact else rng.choice(
+                ign_names if g else [n for n in ok_names if n is not None])
+            # a test renames the Thread object it holds, or the thread renames itself
+            by = 'test' if (attrs[th]['api'] == 'threading' and rng.random() < 0.5) else 'self'
+            tests[cur]['body'].append({'a': 'trename', 'name': th, 'tname': nm, 'by': by})
     # where in the test the thread work happens varies; outcomes too
     for t in tests.values():
-        r = rng.random()
+        r = 1.0 if exact else rng.random()
         if r < 0.15:
             t['setUp'] = t.pop('body')
         elif r < 0.3:
@@ -91,7 +173,7 @@ def make_case(cid, h, rng):
     # versions never reach startTest): they start no thread, so none may be
     # reported for them, whatever the tests before them left behind
     for tid in sorted(tests):
-        if rng.random() < 0.3:
+        if not exact and rng.random() < 0.3:
             tests[tid + 's'] = {'deco': 'skip', 'kind': 'skip_deco'}
             if rng.random() < 0.4:
                 tests[tid + 'ss'] = {'deco': 'skip', 'kind': 'skip_deco'}
@@ -99,6 +181,8 @@ def make_case(cid, h, rng):
                                           'hooks': ['setUp', 'tearDown', 'testSetUp', 'testTearDown']}},
              'layer_order': ['L1'],
              'classes': {'TA': {'tests': sorted(tests), 'layer': 'L1'}}, 'tests': tests}
+    if pre:
+        world['pre_threads'] = pre
     args = []
     for p in pats:
         args += ['--ignore-new-thread', p]
@@ -112,6 +196,7 @@ def record(case, res):
     by_name = {abstract.test_name(w, t): t for t in w['tests']}
     order = []
     ev = []
+    harness_err = ''
     for e in res['events']:
         if e['e'] == 'T' and e['t'] not in order:
             order.append(e['t'])
@@ -119,6 +204,13 @@ def record(case, res):
             ign = any(re.match(p, e['name']) for p in case['pats'])
             ev.append({'e': 'S', 't': e['t'], 'th': e['thread'], 'ident': str(e['ident']), 'ign': ign,
                        'api': 'threading' if e['api'] == 'threading' else 'lowlevel'})
+        elif e['e'] == 'ThreadName':
+            # the thread is seen under another name from now on
+            if e.get('error'):
+                harness_err = 'thread %s could not %s: %s' % (e['thread'], e['how'], e['error'])
+            ign = any(re.match(p, e['name']) for p in case['pats'])
+            ev.append({'e': 'N', 't': e['t'], 'th': e['thread'], 'ident': str(e['ident']), 'ign': ign,
+                       'api': ''})
         elif e['e'] == 'ThreadEnd':
             ev.append({'e': 'E', 't': e['t'], 'th': e['thread'], 'ident': str(e['ident']), 'ign': False,
                        'api': ''})
@@ -133,7 +225,8 @@ def record(case, res):
             continue
         rep[t] += IDENT.findall(thline)
     return {'id': case['id'], 'tests': order, 'ev': ev, 'rep': rep or {'_': []},
-            'unknownBlocks': unknown, 'crashed': res.get('crashed', '') or ''}
+            'unknownBlocks': unknown, 'crashed': res.get('crashed', '') or '',
+            'harnessError': harness_err}
 
 
 def validate(chk, recs, label):
@@ -168,6 +261,9 @@ def run_cases(chk, cases, label):
                 if e['ident'] in idents:
                     reuse += 1
                 idents[e['ident']] = e['th']
+        if rec['harnessError']:
+            chk.machinery('%s: %s' % (c['id'], rec['harnessError']))
+            continue
         clause, t = v
         if rec['crashed'] or rec['unknownBlocks']:
             clause, t = 'C19:report-unreadable', rec['crashed'] or 'unknown test line'
@@ -179,37 +275,81 @@ def run_cases(chk, cases, label):
         'runs_in_which_the_os_reused_an_ident', 0) + reuse
 
 
+DESIGN_CFGS = ('Threads_design', 'Threads_threading')
+DEV_CFGS = ('Threads_asbuilt', 'Threads_dev_SnapshotKeepsEnded', 'Threads_probe',
+            'Threads_dev_NoAliveCheck', 'Threads_dev_SnapshotAfterBody', 'Threads_dev_KeepSnapshot',
+            'Threads_dev_ProxyEqName', 'Threads_dev_OnePerName')
+
+
+def tlc_runs(tier, seed):
+    """all TLC runs on Threads.tla, side by side"""
+    todo = [(c, dict(workers=6, timeout=900)) for c in DESIGN_CFGS]
+    todo += [(c, dict(workers=2, timeout=600)) for c in DEV_CFGS]
+    todo += [('Threads_sched_base', dict(workers=1, timeout=900)),
+             ('Threads_sched', dict(workers=1, timeout=900))]
+    if tier != 'quick':
+        todo.append(('Threads_sched_sim', dict(workers=1, timeout=1800, simulate='num=4000', depth=60,
+                                               seed=seed + 1)))
+    with ThreadPoolExecutor(max_workers=7) as ex:
+        futs = {c: ex.submit(tlc.run, 'Threads', c, **kw) for c, kw in todo}
+        return {c: f.result() for c, f in futs.items()}
+
+
 def run(chk, tier, seed, replay=None):
-    chk.rule = ('(1) TLC: Threads.tla - 3 tests x 3 threads x <= 3 start / end operations per '
-                'test, every thread ending in the same or any later test or never, ignored or '
-                'not, threading or low-level API: Precise holds when idents are never reused, '
-                'and with reuse for threading threads; with reuse and low-level threads (asbuilt) '
-                'TLC produces the hidden-leak counterexample; four deviation configs and the reuse '
-                'probe give counterexamples. (2) spec -> code: the schedules TLC enumerates (hist at '
-                'terminal states) are executed by scripted tests on the real runner (threading '
-                'and _thread APIs, _thread threads that touch threading, named / unnamed / '
-                'names matching or nearly matching the --ignore-new-thread patterns in match '
-                'mode, thread work in setUp / body / tearDown, passing / failing / skipped '
-                'tests); the "left new threads behind" blocks are validated by TLC; distinct '
-                '= distinct schedules')
+    chk.rule = ('(1) TLC: Threads.tla - 3 tests x 3 threads (one may exist before the first test: '
+                'started at import time) x <= 3 operations per test: start (threading or low-level '
+                'API, names from a small set so that threads share names, ignored or not), end (in '
+                'the same or any later test or never), adopt (a running low-level thread becomes '
+                'known to threading and is seen under another name), rename: Precise (report = '
+                'started in this test, running at its end, name at its end not ignored; explicit '
+                'don\'t-care zone for a thread whose name changed its ignore class inside the test '
+                'that started it) holds when idents are never reused, and with reuse for threading '
+                'threads; with reuse and low-level threads (asbuilt) TLC produces the hidden-leak '
+                'counterexample; six deviation configs (among them ProxyEqName: proxy equality looks '
+                'at the name; OnePerName) and the reuse probe give counterexamples. (2) spec -> code: '
+                'the schedules TLC enumerates (hist at terminal states; base: 3 tests x 3 threads; '
+                'extended: threads older than the first test, adopt and rename steps, API chosen by '
+                'TLC) and the counterexamples of the deviation configs are executed by scripted '
+                'tests on the real runner (threading and _thread APIs, _thread threads that touch '
+                'threading at once or when told, renames by the test or by the thread itself, named '
+                '/ unnamed / equal names / names matching or nearly matching the '
+                '--ignore-new-thread patterns in match mode, thread work in setUp / body / '
+                'tearDown, passing / failing / skipped tests); the "left new threads behind" '
+                'blocks are validated by TLC; distinct = distinct schedules')
     chk.assumptions += ['a thread "has ended" once it is joined and gone from sys._current_frames',
-                        'whether the OS reuses an ident is observed (logged idents), not forced']
+                        'whether the OS reuses an ident is observed (logged idents), not forced',
+                        'a thread unknown to threading is seen under the name "Dummy-<ident>"; the '
+                        'ignore patterns used treat all "Dummy-" names alike']
     if replay:
         with open(replay) as f:
             r = json.load(f)
         run_cases(chk, [r['case']], 'replay')
         return
     rng = random.Random(seed * 7919 + 19)
-    chk.add_tlc('Threads_design', tlc.run('Threads', 'Threads_design', timeout=900))
-    chk.add_tlc('Threads_threading', tlc.run('Threads', 'Threads_threading', timeout=900))
-    for cfg in ('Threads_asbuilt', 'Threads_dev_SnapshotKeepsEnded', 'Threads_probe', 'Threads_dev_NoAliveCheck', 'Threads_dev_SnapshotAfterBody',
-                'Threads_dev_KeepSnapshot'):
-        res = tlc.run('Threads', cfg, timeout=600)
+    runs = tlc_runs(tier, seed)
+    for cfg in DESIGN_CFGS:
+        chk.add_tlc(cfg, runs[cfg])
+    cex = []
+    for cfg in DEV_CFGS:
+        res = runs[cfg]
         chk.add_tlc(cfg, res, expect_ok=False)
         if not res.violation:
             chk.machinery('%s did not produce a counterexample' % cfg)
-    hs = schedules(chk, tier, rng)
+            continue
+        h = counterexample_hist(res.out)
+        if h is None:
+            chk.machinery('%s: no hist in the counterexample' % cfg)
+        else:
+            cex.append((cfg, h))
+    hs, hx = schedules(chk, tier, rng, runs)
     cases = [make_case('h%d' % n, h, rng) for n, h in enumerate(hs)]
+    cases += [make_case('x%d' % n, h, rng, 'x') for n, h in enumerate(hx)]
+    # what the model says a deviating runner would get wrong, tried on the runner
+    # (each counterexample as it is, and with Python's variations)
+    for cfg, h in cex:
+        name = cfg.replace('Threads_', '').replace('dev_', '')
+        cases.append(make_case('cex-%s' % name, h, rng, 'exact'))
+        cases.append(make_case('cexv-%s' % name, h, rng, 'x'))
     # the known low-level variant of the ident-reuse defect, and its repaired
     # threading variant, asked for directly (the OS decides about the reuse)
     for n in range(16):
